@@ -452,8 +452,29 @@ def handleHs (op : String) (toks : List String) : Option String := do
     some (showOutcome (hsServerSRP C 3 [0x61] N v b A u masterOf otherT fin))
   | _ => none
 
+/-- chk mode:<cert|extpsk|ticket13|sessid12|ticket12|srp|anon> client:<0|1> chain:<0|1> pin:<ok|bad|none> cr:<0|1>
+      -> resumed=<0|1> <done|fail> -/
+def handleChk (toks : List String) : Option String := do
+  let mode ← match (← kv toks "mode") with
+    | "cert" => some AuthMode.cert | "extpsk" => some .extPsk | "ticket13" => some .ticket13
+    | "sessid12" => some .sessionId12 | "ticket12" => some .ticket12 | "srp" => some .srp
+    | "anon" => some .anon | _ => none
+  let isClient := (← kv toks "client") == "1"
+  let hasChain := (← kv toks "chain") == "1"
+  let peer : Cert := { key := 3, alg := .rsa, bits := 2048 }
+  let chain : Chain := if hasChain then [peer] else []
+  let sess : Session := if isClient then { serverCertChain := chain } else { clientCertChain := chain }
+  let o := Outcome.done sess
+  let fp : Cert → Bytes := fun c => [UInt8.ofNat c.key]
+  let cr := (kv toks "cr").getD "0" == "1"
+  let checker : Option (Bytes × Bool) := match (kv toks "pin").getD "none" with
+    | "ok" => some ([3], cr) | "bad" => some ([9], cr) | _ => none
+  let r := wrapperR fp checker isClient (resumedOf mode) o
+  some ("resumed=" ++ (if resumedOf mode then "1" else "0") ++ " " ++ (if r.completed then "done" else "fail"))
+
 def handle : List String → Option String
   | "shl" :: toks => handleShl toks
+  | "chk" :: toks => handleChk toks
   | "site" :: toks => handleSite toks
   | "srp" :: toks => handleSrp toks
   | "psk" :: toks => handlePsk toks
